@@ -176,10 +176,21 @@ impl Group for Serve {
             conns.push("4@0@1".into());
             v.push(format!("c12.serve {max} 1 1000000 {} post", list(conns)));
         }
+        // … and a connection that goes on after such a request: answered once (200, then 429 for the next connection), then
+        // closed — what follows is taken for the body that was declared
+        v.push("c12.serve 2 1 1000000 [1@0@2,1@0@2,4@0@1] post".to_owned());
         v
     }
+    /// `post` lines: every connection's requests declare a body that never comes (`@0` for the model's `serveB`)
     fn driver_line(&self, line: &str) -> String {
-        line.trim_end_matches(" post").to_owned()
+        match line.strip_suffix(" post") {
+            None => line.to_owned(),
+            Some(l) => {
+                let p: Vec<&str> = l.split(' ').collect();
+                let conns = list(parse_list(p[4]).unwrap().iter().map(|c| format!("{c}@0")));
+                format!("{} {} {} {} {conns}", p[0], p[1], p[2], p[3])
+            }
+        }
     }
     fn run_impl(&self, _ctx: &Ctx, line: &str) -> String {
         let p: Vec<&str> = line.split(' ').collect();
@@ -254,7 +265,7 @@ impl Group for Serve {
                 let k = seen.entry(a.clone()).or_insert(0);
                 *k += 1;
                 let want = if 2 * *k - 1 > 3 * max { "X" } else if 2 * *k <= max { "200" } else if 2 * *k <= 3 * max { "429" } else { "X" };
-                if o != want {
+                if o.split('/').next() != Some(want) {
                     return Some((format!("ladder:{line}"), format!("connection {} of address {a} (max {max}): the request should be answered `{want}`, got `{o}`: {out}", *k)));
                 }
             }
